@@ -429,10 +429,74 @@ def check_history(case):
     return outcome(True, "converted-equal", nontrivial=True)
 
 
+def sat2(s, k):
+    return k * s / (1.0 + s)
+
+
+def scaled_sum(a, b):
+    return 0.5 * (a + b) + 0.25
+
+
+SIM_OPS = ["simulate", "update_parameter", "update_variable", "clear_results", "edit-rate-law", "edit-derived"]
+
+
+def check_simulator_history(case):
+    """The Jacobian the simulator hands to its integrator is the derivative of the model's CURRENT right-hand side
+    after every sequence of simulator operations; a rate law / derived function replaced on the simulator's model
+    counts from the next re-initialisation (clear_results, update_variable) on."""
+    import logging
+    from functools import partial
+
+    import numpy as np
+    from mxlpy import Scipy, Simulator
+
+    logging.getLogger("mxlpy.simulator").setLevel(logging.CRITICAL)
+    base = {"net": "chain", "dorder": ["d1", "d2"], "coef": "pcomp", "untouched": 0, "time": 0, "ia": 0, "ratedep": 0}
+    sim = Simulator(build_model(base), integrator=partial(Scipy, method=case["method"]), use_jacobian=True)
+    if sim.integrator.jacobian is None:
+        return outcome(False, "no-jacobian", symptom="simulator-history:no-jacobian", nontrivial=True, detail=f"{case}")
+    t_now = 0.0
+    dirty = False
+    var_names = sim.model.get_variable_names()
+    for i, op in enumerate(case["ops"]):
+        if op == "simulate":
+            t_now += 0.25
+            sim.simulate(t_now, steps=2)
+        elif op == "update_parameter":
+            sim.update_parameter("k2", 1.9)
+        elif op == "update_variable":
+            sim.update_variable("x2", 0.8)
+            dirty = False
+        elif op == "clear_results":
+            sim.clear_results()
+            t_now = 0.0
+            dirty = False
+        elif op == "edit-rate-law":
+            sim.model.update_reaction("v2", fn=sat2, args=["x2", "vmax"])
+            dirty = True
+        else:
+            sim.model.update_derived("d1", fn=scaled_sum)
+            dirty = True
+        if dirty:
+            continue
+        jac = sim.integrator.jacobian
+        if jac is None:
+            continue  # dropped with a warning: the documented fallback
+        for y in ([0.5, 2.0], [2.0, 0.5]):
+            got = np.asarray(jac(t_now, np.array(y, dtype=float)), dtype=float)
+            want = _numeric_jacobian(sim.model, var_names, y, t_now)
+            if got.shape != want.shape or not np.allclose(got, want, rtol=2e-6, atol=2e-6):
+                return outcome(False, "stale-jacobian", symptom="simulator-history:jacobian-differs", nontrivial=True,
+                               detail=f"after {case['ops'][: i + 1]} the integrator's Jacobian at {y} is {got.tolist()}, the derivative of the model's right-hand side {want.tolist()} | {case}")
+    return outcome(True, "jacobian-current", nontrivial=True)
+
+
 def check(case):
     import logging
 
     logging.getLogger("mxlpy.meta").setLevel(logging.CRITICAL)
+    if case.get("mode") == "simulator-history":
+        return check_simulator_history(case)
     if case.get("mode") == "history":
         return check_history(case)
     nt = bool(case["dorder"]) or case["coef"] != "num" or any(case[k] for k in ("untouched", "time", "ia", "ratedep"))
@@ -448,7 +512,14 @@ def run(ctx):
     cases = generate(ctx.tier)
     for steps in (["A", "B"], ["B", "A"], ["A", "edit"], ["B", "A", "B"], ["A", "A", "edit", "B"]):
         cases.append({"mode": "history", "steps": steps})
-    sym = [c for c in cases if c["mode"] in ("symbolic", "history")]
+    depth = 3 if ctx.tier == "quick" else 4
+    for n in range(1, depth + 1):
+        for ops in it.product(SIM_OPS, repeat=n):
+            if ops[-1] in ("edit-rate-law", "edit-derived"):
+                continue  # nothing is observed right after an edit
+            for method in ("LSODA",) if ctx.tier == "quick" else METHODS:
+                cases.append({"mode": "simulator-history", "ops": list(ops), "method": method})
+    sym = [c for c in cases if c["mode"] in ("symbolic", "history", "simulator-history")]
     sim = [c for c in cases if c["mode"].startswith("simulate")]
     ctx.note(f"{len(sym)} symbolic cases, {len(sim)} simulations with Jacobian")
     ctx.evaluate(sym, timeout=300)
